@@ -18,7 +18,9 @@ RULE = ("every case is one nested list x (byte strings / None / ints / lists); i
         "pair of strings of length <= 2 over that alphabet in 3 nestings; C = every forest with <= N nodes whose "
         "leaves range over a 27-atom set (each special byte, NIL/nil, {3}, a real literal prefix, None, ints; 20 of "
         "them for the largest node count).  "
-        "non-trivial = distinct serialisations that contain a literal, a backslash escape, a nested list or NIL")
+        "non-trivial = distinct serialisations that contain a literal, a backslash escape, a nested list or NIL "
+        "(thorough keeps at most 4000 keys per shard, so distinct_nontrivial is a lower bound there; counter "
+        "nontrivial_cases is the full number)")
 BOUNDS = {"quick": "A: strings <= 3 bytes; B: pairs of strings <= 2 bytes; C: forests <= 4 nodes (any depth; 27 atoms up to 3 nodes, 20 at 4)",
           "thorough": "A: strings <= 4 bytes; B: pairs (<=3 bytes, <=2 bytes); C: forests <= 5 nodes (any depth; 27 atoms up to 4 nodes, 20 at 5)"}
 ASSUMPTIONS = [
@@ -27,8 +29,8 @@ ASSUMPTIONS = [
     "the top level is parenthesised as the statement says, so the parser's outer strip() never touches content",
     "only bytes / None / int / list items (the statement's domain); str, file-like objects and DontQuoteMe are not driven",
 ]
-MIN = {"quick": {"evaluations": 400000, "nontrivial": 300000, "outcomes": 5},
-       "thorough": {"evaluations": 5000000, "nontrivial": 2000000, "outcomes": 5}}
+MIN = {"quick": {"evaluations": 400000, "nontrivial": 370000, "outcomes": 5},
+       "thorough": {"evaluations": 8000000, "nontrivial": 1000000, "nontrivial_cases": 7000000, "outcomes": 5}}
 
 B17 = [b"a", b'"', b"\\", b"\r", b"\n", b"{", b"}", b"(", b")", b"[", b"]", b" ", b"\t", b"\x80", b"\x00", b"3", b"N"]
 
@@ -136,7 +138,9 @@ def evaluate(x, st, family):
     except (imap4.IMAP4Exception, ValueError, IndexError, TypeError) as e:  # parser refused its own server's output
         exc = e
     if b"{" == ser[1:2] or b" {" in ser or b"\\" in ser or b"(" in ser[1:-1] or b"NIL" in ser:
-        st.nt(ser)
+        st.count("nontrivial_cases")
+        if NT_CAP is None or len(st.nontrivial) < NT_CAP:
+            st.nt(ser)
     if exc is None and got == want:
         st.outcome("ok:" + ("literal" if b"}\r\n" in ser else "escaped" if b"\\" in ser else "plain"))
         return []
@@ -218,7 +222,12 @@ def shards(tier, seed):
     return out
 
 
+NT_CAP = None   # thorough keeps at most this many distinct keys per shard (memory); the counter has the full count
+
+
 def run_shard(shard, tier, seed):
+    global NT_CAP
+    NT_CAP = None if tier == "quick" else 4000
     st = Stats()
     fam = shard[0]
     if fam == "A":
